@@ -160,6 +160,51 @@ Definition reverse_nonempty_test (c : list A) : bool := negb (r_begin c =? r_end
 
 End Iter.
 
+(* ---- TWO ranges alive at once.  The store holds two independent containers a and b; the outer loop runs over
+   an adaptor of a, and its body first runs `inner` — any code using b (typically a whole loop over an adaptor of
+   b): it returns b's contents afterwards and an observation — then assigns f v through the outer loop's element.
+   An adaptor of a refers to a only: nothing `inner` does can redirect it, and the outer loop never touches b ---- *)
+Section Two.
+Variables A O : Type.
+Variable inner : list A -> list A * O.
+
+Fixpoint r_loop2 (fuel : nat) (f : A -> A) (a b : list A) (it e : nat) (visits : list (A * O))
+  : outcome (list (A * O) * list A * list A) :=
+  match fuel with
+  | 0 => OutOfFuel
+  | S fuel' =>
+      if negb (it =? e) then
+        match r_deref a it with
+        | None => BadDeref
+        | Some v =>
+            let (b', o) := inner b in
+            r_loop2 fuel' f (upd a (pred it) (fun _ => f v)) b' (pred it) e (visits ++ [(v, o)])
+        end
+      else Done (visits, a, b)
+  end.
+(* for (auto& x : reverse(a)) { inner(b); x = f x; } *)
+Definition reverse_for2 (f : A -> A) (a b : list A) : outcome (list (A * O) * list A * list A) :=
+  r_loop2 (S (length a)) f a b (r_begin A a) r_end [].
+
+Fixpoint e_loop2 (fuel : nat) (f : nat -> A -> A) (a b : list A) (it e : eiter) (visits : list ((nat * A) * O))
+  : outcome (list ((nat * A) * O) * list A * list A) :=
+  match fuel with
+  | 0 => OutOfFuel
+  | S fuel' =>
+      if e_ne it e then
+        match e_deref A a it with
+        | None => BadDeref
+        | Some (i, v) =>
+            let (b', o) := inner b in
+            e_loop2 fuel' f (upd a (e_pos it) (fun _ => f i v)) b' (e_incr it) e (visits ++ [((i, v), o)])
+        end
+      else Done (visits, a, b)
+  end.
+(* for (auto x : enumerate(a)) { inner(b); x.value() = f x.index() x.value(); } *)
+Definition enumerate_for2 (f : nat -> A -> A) (a b : list A) : outcome (list ((nat * A) * O) * list A * list A) :=
+  e_loop2 (S (length a)) f a b e_begin (e_end A a) [].
+End Two.
+
 (* the expected observations, in list terms *)
 Definition spec_enumerate {A} (c : list A) : list (nat * A) := combine (seq 0 (length c)) c.
 Definition spec_enumerate_write {A} (f : nat -> A -> A) (c : list A) : list A :=
